@@ -104,7 +104,10 @@ def element(kind, rng, allow_nonfinite=False):
     if kind == 'multipolygon':
         k = rng.choice([1, 1, 2, 3])
         ccw = rng.random() < 0.7
-        return [polygon(rng, cx=-6 + 12 * i + rng.randint(-1, 1), cy=rng.randint(-3, 6), ccw=ccw) for i in range(k)]
+        out = [polygon(rng, cx=-6 + 12 * i + rng.randint(-1, 1), cy=rng.randint(-3, 6), ccw=ccw) for i in range(k)]
+        if rng.random() < 0.2:
+            out.insert(rng.randint(0, len(out)), [])        # a part without rings
+        return out
     raise ValueError(kind)
 
 
